@@ -161,12 +161,22 @@ type WMsg struct {
 
 type WCase struct {
 	Batches [][]WMsg `json:"batches"`
+	// Buf: the node is configured WithBufferSize(Buf) (0 = default); what the writer hands over in one
+	// batch may be many times that ("mid" = 12 KiB payloads, "big" = 1 MiB)
+	Buf int `json:"buf,omitempty"`
 }
 
 func (m WMsg) build() (any, bool) {
 	switch m.K {
 	case "test":
 		return &remote.TestMessage{Data: []byte(m.D)}, true
+	case "mid":
+		b := make([]byte, 12<<10+len(m.D))
+		for i := range b {
+			b[i] = byte(i * 7)
+		}
+		copy(b, m.D)
+		return &remote.TestMessage{Data: b}, true
 	case "big":
 		// a payload of 1 MiB and a bit (len(D) decides how much more): a size at which transports like
 		// to treat a message specially
@@ -195,7 +205,10 @@ func (m WMsg) build() (any, bool) {
 func runWire(c WCase) (labels []string, nt bool, err error) {
 	e := node()
 	fs := &fakeStream{}
-	w := remote.VerifNewWriter(e, e.Address(), fs, fakeConn{})
+	if c.Buf < 0 || c.Buf > 8<<20 {
+		return nil, false, nil
+	}
+	w := remote.VerifNewWriterBuf(e, e.Address(), fs, fakeConn{}, c.Buf)
 	type want struct {
 		target string
 		msg    proto.Message
@@ -268,6 +281,24 @@ func runWire(c WCase) (labels []string, nt bool, err error) {
 		}
 	}
 	labels = []string{fmt.Sprintf("batches=%d", len(c.Batches))}
+	if c.Buf > 0 {
+		labels = append(labels, "configured-buffer-size")
+	}
+	for _, b := range c.Batches {
+		sz := 0
+		for _, m := range b {
+			switch m.K {
+			case "mid":
+				sz += 12 << 10
+			case "big":
+				sz += 1 << 20
+			}
+		}
+		if (c.Buf > 0 && sz > c.Buf/2) || sz > 2<<20 {
+			labels = append(labels, "batch-larger-than-half-the-buffer")
+			break
+		}
+	}
 	if bad > 0 {
 		labels = append(labels, "has-unserialisable")
 	}
@@ -327,6 +358,24 @@ func genWire(t *rapid.T) WCase {
 		if len(c.Batches[b]) > 0 {
 			i := rapid.IntRange(0, len(c.Batches[b])-1).Draw(t, "bigpos")
 			c.Batches[b][i].K = "big"
+			// ... and now and then three of them in one batch
+			if rapid.IntRange(0, 2).Draw(t, "threebig") == 0 {
+				for k := 0; k < 2; k++ {
+					j := rapid.IntRange(0, len(c.Batches[b])-1).Draw(t, "bigpos2")
+					c.Batches[b][j].K = "big"
+				}
+			}
+		}
+	}
+	// one case in six: a configured buffer size, and payloads of 12 KiB among the messages
+	if rapid.IntRange(0, 5).Draw(t, "bufcase") == 0 {
+		c.Buf = rapid.SampledFrom([]int{32 << 10, 64 << 10, 1 << 20}).Draw(t, "buf")
+		for b := range c.Batches {
+			for i := range c.Batches[b] {
+				if c.Batches[b][i].K == "test" && rapid.IntRange(0, 2).Draw(t, "mid") == 0 {
+					c.Batches[b][i].K = "mid"
+				}
+			}
 		}
 	}
 	return c
